@@ -52,12 +52,12 @@ LAMBDAS = {'inc': lambda x: x + 1, 'dbl': lambda x: x * 2, 'even': lambda x: x %
 
 ELEMENTWISE = [{'op': 'map', 'f': 'inc'}, {'op': 'map', 'f': 'dbl'}, {'op': 'filter', 'f': 'even'}, {'op': 'filter', 'f': 'pos'},
                {'op': 'flatMap', 'f': 'dup'}, {'op': 'map', 'f': 'neg'}]
-STRUCTURAL = [{'op': 'coalesce', 'n': 2}, {'op': 'coalesce', 'n': 1}, {'op': 'repartition', 'n': 3}, {'op': 'sortBy'}, {'op': 'distinct'},
+STRUCTURAL = [{'op': 'aggregateByKey'}, {'op': 'foldByKey'}, {'op': 'countByKey'}, {'op': 'cogroup_self'}, {'op': 'coalesce', 'n': 2}, {'op': 'coalesce', 'n': 1}, {'op': 'repartition', 'n': 3}, {'op': 'sortBy'}, {'op': 'distinct'},
               {'op': 'reduceByKey'}, {'op': 'groupByKey'}, {'op': 'zipWithIndex'}, {'op': 'glom'}, {'op': 'union_self'},
               {'op': 'sampleByKey', 'seed': 5}]
-ACTIONS = ['collect', 'collect', 'count', 'unpersist', 'take3', 'first', 'reduce', 'aggregate', 'takeSample', 'collect']
+ACTIONS = ['collect', 'collect', 'count', 'unpersist', 'reduce', 'reduceMax', 'fold', 'foldMax', 'take3', 'first', 'reduce', 'aggregate', 'takeSample', 'collect']
 
-BACKENDS = ['thread', 'mp+cloudpickle', 'mp+dill', 'ppe+cloudpickle', 'ppe+dill', 'reversed', 'shuffled']
+BACKENDS = ['thread', 'thread+datapickle', 'mp+cloudpickle+datapickle', 'mp+cloudpickle', 'mp+dill', 'ppe+cloudpickle', 'ppe+dill', 'reversed', 'shuffled']
 
 
 def build(sc, pipe, table, handles=None):
@@ -82,6 +82,15 @@ def build(sc, pipe, table, handles=None):
             r = r.distinct().sortBy(table['id'])
         elif k == 'reduceByKey':
             r = r.map(table['kv']).reduceByKey(table['add']).sortByKey()
+        elif k == 'aggregateByKey':
+            r = r.map(table['kv']).aggregateByKey(0, table['add'], table['add']).sortByKey()
+        elif k == 'foldByKey':
+            r = r.map(table['kv']).foldByKey(0, table['add']).sortByKey()
+        elif k == 'countByKey':
+            r = sc.parallelize(sorted(r.map(table['kv']).countByKey().items()), 2)
+        elif k == 'cogroup_self':
+            kv = r.map(table['kv'])
+            r = kv.cogroup(kv).mapValues(lambda ab: (sorted(ab[0]), sorted(ab[1]))).sortByKey()
         elif k == 'groupByKey':
             r = r.map(table['kv']).groupByKey().mapValues(sorted).sortByKey()
         elif k == 'zipWithIndex':
@@ -111,9 +120,20 @@ def act(r, a, table, handles=()):
         return r.take(3)
     if a == 'first':
         return r.take(1)
+    # (no intermediate job between two actions: "the same kind of action twice with different functions" must stay adjacent)
+    def guarded(fn):
+        try:
+            return fn()
+        except (TypeError, ValueError) as e:      # non-numeric elements, or an empty dataset: the same on every backend
+            return 'raises:' + type(e).__name__
     if a == 'reduce':
-        xs = r.collect()
-        return None if (not xs or not all(isinstance(x, int) for x in xs)) else r.reduce(table['add'])
+        return guarded(lambda: r.reduce(table['add']))
+    if a == 'reduceMax':     # the same KIND of action as 'reduce' with another user function: must not be confused with it
+        return guarded(lambda: r.reduce(lambda p, q: p if p >= q else q))
+    if a == 'foldMax':
+        return guarded(lambda: r.fold(-10 ** 9, lambda p, q: p if p >= q else q))
+    if a == 'fold':
+        return guarded(lambda: r.fold(0, table['add']))
     if a == 'aggregate':
         return r.aggregate(0, lambda acc, x: acc + 1, table['add'])
     if a == 'takeSample':
@@ -254,6 +274,13 @@ class C03(Prop):
         ps = self.ps
         if name == 'thread':
             return ps.Context(pool=self.futures.ThreadPoolExecutor(4)), LAMBDAS
+        if name == 'thread+datapickle':      # partitions and results travel through the data (de)serializer pair
+            return ps.Context(pool=self.futures.ThreadPoolExecutor(4), data_serializer=pickle.dumps, data_deserializer=pickle.loads), LAMBDAS
+        if name == 'mp+cloudpickle+datapickle':
+            if self.mp_pool is None:
+                self.mp_pool = self.mp.Pool(3)
+            return ps.Context(pool=self.mp_pool, serializer=self.cloudpickle.dumps, deserializer=pickle.loads,
+                              data_serializer=pickle.dumps, data_deserializer=pickle.loads), LAMBDAS
         if name.startswith('mp+'):
             if self.mp_pool is None:
                 self.mp_pool = self.mp.Pool(3)
@@ -341,6 +368,10 @@ class C03(Prop):
                 for first in (0, 1):
                     out.append({'kind': 'sched', 'pipe': base, 'order': [first, 1 - first], 'preempt': [[a, 1 - first], [b, first]], 'job': 0})
                     out.append({'kind': 'sched', 'pipe': samp, 'order': [first, 1 - first], 'preempt': [[a, 1 - first], [b, first]], 'job': 0})
+        twice = {'n': 3, 'data': [3, 9, 1, 7, 5, 2], 'ops': [{'op': 'map', 'f': 'inc'}],
+                 'actions': ['reduce', 'reduceMax', 'reduce', 'foldMax', 'fold', 'foldMax']}
+        for b in BACKENDS:
+            out.append({'kind': 'backend', 'pipe': twice, 'backend': b, 'seed': 1})
         for b in BACKENDS:
             for pipe in (base, samp, coal, nested):
                 out.append({'kind': 'backend', 'pipe': pipe, 'backend': b, 'seed': 1})
@@ -390,7 +421,7 @@ class C03(Prop):
         for o in pipe['ops']:
             ctx.note('op:' + o['op'])
         # user-function call counts can be observed on the backends that run in this process
-        inproc = case['kind'] == 'sched' or case.get('backend') in ('thread', 'reversed', 'shuffled')
+        inproc = case['kind'] == 'sched' or case.get('backend') in ('thread', 'reversed', 'shuffled')      # (not thread+datapickle: functions travel by reference but results are copies; counts still shared - kept out for simplicity)
         want_counts, got_counts = ({}, {}) if inproc else (None, None)
         try:
             want = self.reference(pipe, want_counts)
@@ -421,7 +452,7 @@ class C03(Prop):
         except Exception as e:  # pylint: disable=broad-except
             got = exc(e)
         finally:
-            if case['kind'] == 'backend' and case['backend'] == 'thread':
+            if case['kind'] == 'backend' and case['backend'].startswith('thread'):
                 sc._pool.shutdown()  # pylint: disable=protected-access
         if pool is not None:
             ctx.note('switches:%d' % min(pool.switches, 3))
@@ -432,6 +463,12 @@ class C03(Prop):
         if got[0] != want[0]:
             return Mismatch('%s: action results differ from the in-process executor' % label, got[0], want[0],
                             'C03:results:' + (label if case['kind'] == 'backend' else 'sched'), relation='spec')
+        # after a job whose user function raised (retried, then surfaced) what the failed attempts left in the cache and how
+        # often functions ran is not fixed by the property: compare those only for histories without a raising action
+        raised = any(isinstance(x, str) and x.startswith('raises:') for x in want[0])
+        if raised:
+            ctx.note('history-with-raising-action')
+            return None
         if got[1] != want[1]:
             return Mismatch('%s: cache contents after the job differ from the in-process executor' % label, got[1], want[1],
                             'C03:cache:' + (label if case['kind'] == 'backend' else 'sched'), relation='spec')
